@@ -75,12 +75,13 @@ theorem rrun_year4 (y1 y2 y3 y4 sp : Nat) (rest : List Nat) (tm : Tm) (tz : List
     (hsp : isSpace sp = true) :
     rrun ⟨.onYear, [], false, tm, tz⟩ (y1 :: y2 :: y3 :: y4 :: sp :: rest) =
       rrun ⟨.onHour, [], false,
-        { tm with year := wrap32 (wrap32 (wrap32 (wrap32 (tm.year * 10 + dval y1) * 10 + dval y2) * 10 + dval y3) * 10 + dval y4) }, tz⟩ rest := by
+        { tm with year := wrap32 (wrap32 (wrap32 (wrap32 (tm.year * 10 + dval y1) * 10 + dval y2) * 10 + dval y3) * 10 + dval y4)
+                    - (Gen.Date.rfcYear4Sub : Nat) + tmYearBase }, tz⟩ rest := by
   have a1 := digit_not_space h1
   have a2 := digit_not_space h2
   have a3 := digit_not_space h3
   have a4 := digit_not_space h4
-  simp [rrun, rstep, h1, h2, h3, h4, hsp, a1, a2, a3, a4]
+  simp [rrun, rstep, h1, h2, h3, h4, hsp, a1, a2, a3, a4, Gen.Date.rfcYear4Digits, Gen.Date.rfcYear2Digits]
 
 /-- `hh:mm:ss ` -/
 theorem rrun_clock (a1 a2 b1 b2 c1 c2 sp : Nat) (rest : List Nat) (tm : Tm) (tz : List Nat)
@@ -103,7 +104,7 @@ def zoneChar (c : Nat) : Prop := (isAlnum c || c == 45 || c == 43) = true
 
 /-- zone: up to five characters are copied -/
 theorem rrun_tz (z : List Nat) (hz : ∀ x ∈ z, zoneChar x) :
-    ∀ tok tm tz, tok.length + z.length ≤ 5 →
+    ∀ tok tm tz, tok.length + z.length ≤ Gen.Date.tzMaxChars →
       rrun ⟨.onTz, tok, false, tm, tz⟩ z = ⟨.onTz, tok ++ z, false, tm, tz ++ z⟩ := by
   induction z with
   | nil => intro tok tm tz _; simp [rrun]
@@ -111,7 +112,7 @@ theorem rrun_tz (z : List Nat) (hz : ∀ x ∈ z, zoneChar x) :
     intro tok tm tz hl
     have hx := hz x (by simp)
     unfold zoneChar at hx
-    have hlen : tok.length < 5 := by simp at hl; omega
+    have hlen : tok.length < Gen.Date.tzMaxChars := by simp at hl; omega
     simp only [rrun, rstep, hx, hlen, and_self, if_true, Bool.false_eq_true, if_false]
     rw [ih (fun y hy => hz y (by simp [hy])) _ _ _ (by simp at hl ⊢; omega)]
     simp
